@@ -1244,6 +1244,29 @@ static double tab_target(mtab const *t, vf_rng *r)
     }
 }
 
+/* a point in the TAIL of one set, where its membership is still above the activation threshold (eps) but below sqrt(eps): with
+   both inputs there every set that fires has a membership above eps while every joint membership under the product-like operators is
+   below eps (seeded change C12-G: consequents of rules whose joint membership is not above eps are skipped while the normalisation
+   still counts them).  Input selection only - found by stepping outwards on the library's own function; nothing is judged here. */
+static double tab_tail_target(mtab const *t, vf_rng *r)
+{
+    tset const *s = &t->s[vf_below(r, (uint64_t)t->nsets)];
+    double an[MAXAN], w, l, x0, dir = vf_sign(r), lo, hi, want;
+    int na = mf_anchors(s->fam, s->p, an, &w, &l);
+    x0 = an[vf_below(r, (uint64_t)na)];
+    if (!(a_mf((unsigned)s->fam, x0, s->p) > 1e-8)) { return x0; }
+    lo = 0;
+    hi = t->L / 64;
+    for (int k = 0; k < 80 && a_mf((unsigned)s->fam, x0 + dir * hi, s->p) > 1e-8; ++k) { lo = hi; hi *= 2; }
+    want = pow(10.0, vf_uniform(r, -15.3, -8.2));
+    for (int k = 0; k < 60; ++k)
+    {
+        double mid = (lo + hi) / 2;
+        if (a_mf((unsigned)s->fam, x0 + dir * mid, s->p) > want) { lo = mid; } else { hi = mid; }
+    }
+    return x0 + dir * lo;
+}
+
 typedef struct
 {
     double set, fdb;
@@ -1316,6 +1339,7 @@ static void pid_controller(int order, unsigned opr, int kind_e, int kind_ec, vf_
     while (nst + 2 <= (vf.tier ? 48 : 32))
     {
         double E = tab_target(&me, r), EC = tab_target(&mec, r), fdb = vf_chance(r, 1, 2) ? 0 : me.L * vf_uniform(r, -3, 3);
+        if (vf_chance(r, 1, 5)) { E = tab_tail_target(&me, r); EC = tab_tail_target(&mec, r); VF_COUNT("pid_fuzzy-both-inputs-in-membership-tails"); }
         if (nst == 0 && order > 1)
         {
             /* always visit the middle of a flank in both inputs (memberships 1/2, 1/2) */
